@@ -15,7 +15,7 @@ for f in d['findings']:
 out += ("\nOpen findings are not repaired because the repair is not small or not obviously safe — they need a design decision "
         "(validation before normalization; a defer-aware planner for `@requires` and keys; the render rule for containers shared by "
         "sibling defers; a race-free way to hand the decision cache to defer-group loaders; a dial that does not run under one "
-        "subscriber's context; kind-level variable validation; nested-list aware merging of gRPC resolver results) — or an existing "
+        "subscriber's context; kind-level variable validation) — or an existing "
         "unit test pins the behaviour (C09), or the behaviour is a documented choice (C14 deferred pruning).\n")
 c = json.load(open(V + '/tools/claims.json'))
 out += "\n### 9.7 Per property: level, theorems, tie\n\n"
@@ -29,25 +29,28 @@ out += ("Each change compiles and passes the repository's test suite. `tools/all
         "quick check, undoes the change and records the outcome in `seeded/<id>/meta.json` (`detected_by`).\n\n")
 out += "| seed | change (first sentence) | caught by |\n|---|---|---|\n"
 n_in = n_tie = n_miss = 0
+tie_only, missed = [], []
 for dd in sorted(glob.glob(V + '/seeded/C*-m*')):
     m = json.load(open(dd + '/meta.json'))
     det = m.get('detected_by') or {}
     how = det.get('how', 'not run')
     if det.get('detected') and 'no-failing-input' in how:
         n_tie += 1
+        tie_only.append(os.path.basename(dd))
     elif det.get('detected'):
         n_in += 1
     else:
         n_miss += 1
+        missed.append(os.path.basename(dd))
     summ = (m.get('summary') or '').replace('|', '/').replace('\n', ' ')
     first = re.split(r'(?<=[.:]) ', summ)[0][:230]
     out += "| %s | %s | %s |\n" % (os.path.basename(dd), first, how)
 out += ("\n%d are caught with a concrete failing input (or a harness crash whose replay names the inputs), %d only because a regenerated "
-        "skeleton no longer matches (`no-failing-input-found`), %d are missed by the quick tier. The misses need inputs the generators "
-        "do not produce: subscription updates under authorization (C14-m3), concurrent requests sharing one cached plan (C15-m3), "
-        "engine-level entity caching streams (C16-m2/m3, C06-m3), a reused datasource and entity lookups of the gRPC datasource "
-        "(C20-m1/m3), an exact three-selection pattern across object types for the validator alone (C04-m1), a normalizer reused after a "
-        "walk that was stopped inside a fragment definition (C04-m2), one specific dependency shape under a stall (C08-m3).\n" % (n_in, n_tie, n_miss))
+        "skeleton or a theorem instance no longer checks (`no-failing-input-found`: %s), %d are missed by the quick tier%s. "
+        "The tie-only ones need inputs or interleavings the generators do not produce: a tainted entity nested inside the items of a "
+        "dependent fetch with `ValidateRequiredExternalFields` (C07-m2), a deferred group that fails hard in its fetch phase while a "
+        "sibling group flushes (C10-m1), a three-level defer nesting with an 'uncle' group and one completion order (C10-m2).\n"
+        % (n_in, n_tie, ', '.join(tie_only) or 'none', n_miss, (' (' + ', '.join(missed) + ')') if missed else ''))
 design = open(V + '/DESIGN.md').read()
 i = design.find('\n## 9. As built')
 if i >= 0:
